@@ -25,6 +25,24 @@ CLAIMED = {
         text="For every state of a breadth-first exploration (insert/remove/flip/repair histories from the empty triangulation and from batch-constructed seeds, D=2..5, both kernels, default policies plus repair/check/validation/guarantee deviations incl. repair x check pairs), every op of the mutation alphabet is applied: insert (both entry points, every alphabet point), duplicate-UUID insert, remove of every vertex and of an unknown vertex, every flip handle that can be formed incl. stale/out-of-range ones, both repair entry points. Whenever a call returns Err or Skipped the semantic fingerprint (vertices with UUID, coordinate bits, data; cells as vertex-UUID sets; neighbour pairs; counts; policies) must equal the one taken before the call, and a menu of follow-up operations must give equal results on the survivor and on a pristine clone (this is what exposes caches that did not roll back). Then, for the states up to the recorded depth, the operation is re-run once per (failpoint site, hit index <= 3, error flavour) with exactly that internal error return forced (guarded hooks at 40 sites in insertion, cavity, hull extension, post-insertion repair/check, removal, flips and repair postcondition): a surfaced failure must satisfy the same oracle, an absorbed one must leave a state that passes the independent Level 1-3 reference.",
         note="Deviation bound: one injected failure per operation. Failpoints are inert unless armed on the calling thread. The sites are a finite list chosen by reading the code (Appendix A of DESIGN.md), not every `?` in the crate. Known finding: public Edit-API flips are not rolled back when an internal step fails after the first mutation (listed per flip kind). Two genuine defects found by this check were repaired (`fix:` commits 2901a58, 5e1db2b).",
         design_ref="DESIGN.md section 5 (C03), 2.5, Appendix A"),
+    "C04": dict(
+        category="model_checking",
+        technique="explicit-state enumeration of the complete flip-graph closure with the real flip calls; every state judged against an exact (bigint) empty-circumsphere oracle",
+        text="For every subset (sizes D+2..D+5) of per-dimension point alphabets - degenerate grids and an exactly verified general-position family, D=2..5, both kernels - the complete closure under the k>=2 Edit-API flips is computed by BFS over real DelaunayTriangulation objects (so every flip distance from Delaunay that exists for the point set is a state). Every state that passes the independent Level 1-3 + convex-embedding reference is judged through is_valid, validate, validation_report, is_delaunay_via_flips and find_delaunay_violations: accept => no vertex certainly strictly inside a circumsphere in exact arithmetic outside the recomputed tolerance band (soundness); general position and strictly Delaunay => not rejected (completeness).",
+        note="State identity in the closure is the cell set (verdicts are functions of the complex). Trusts the exact oracle and the reference validators. Known genuine defects (degenerate-flip skip in D=3, both-positive suppression in D>=4, band-limited local checks on slivers) are listed in known_findings.json per (api group, D, family, mechanism).",
+        design_ref="DESIGN.md section 5 (C04)"),
+    "C07": dict(
+        category="model_checking",
+        technique="explicit-state exploration of the flip-graph closure; every flip handle in every state applied to the real object and judged against recomputed combinatorial invariants and the inverse move",
+        text="In every state of the cap-bounded combinatorial closure of each small point set (D=2..5, degenerate and moment-curve families, both kernels): all six Edit-API entry points x every handle that can be formed (every cell x facet index incl. D+1 and 255, every ridge index pair incl. equal indices, every vertex pair and triple, every vertex, stale/foreign keys, k=1 insertion at an interior and a far point). Every flip that reports success must leave Levels 1-2 valid by the independent reference, preserve facet degrees, closed boundary, connectedness, Euler characteristic, boundary facet set and vertex set (k>=2), change the cell count by (D+2-k)-k, describe removed/new cells exactly (new cells == star of the inserted face), and the inverse move addressed through the created face must succeed and restore the identical cell set.",
+        note="Closures above the cap are truncated (reported as closures_capped / exhaustive=false for those). Err outcomes are C03's subject.",
+        design_ref="DESIGN.md section 5 (C07)"),
+    "C08": dict(
+        category="model_checking",
+        technique="explicit-state enumeration of repair starts (complete flip-graph closure, removal and repair-off insertion successors) with the real repair calls; exact oracle and brute-force unique-Delaunay reference",
+        text="Both repair entry points are run from every valid state of the complete flip closure of each point set (every flip distance), from each seed after removing each vertex with repair disabled and from the incremental build with repair disabled, under all three topology guarantees, both kernels, D=2..5. On Ok: identical vertex set (UUID, coordinate bits, data), independent Level 1-3 reference, no certain exact empty-circumsphere violation, and for exactly general-position sets the cell set must equal the brute-force unique Delaunay triangulation; on Err the fingerprint must be unchanged; Ok is a violation when the public admissibility predicate rejects flips under the guarantee; every call must return within the work ceiling.",
+        note="Known genuine defects (repair certifies non-Delaunay results in D=3 via the degenerate-flip skip and in D>=4 via the both-positive suppression) are listed per (op, D, family, start kind, mechanism). One defect found here was repaired (fix: 2cc646d, negative orientation after public repair).",
+        design_ref="DESIGN.md section 5 (C08)"),
     "C12": dict(
         category="exploration",
         technique="exhaustive enumeration of grid tuples x vertex orders x scale variants against an exact (bigint) sign oracle",
